@@ -346,8 +346,22 @@ def import_tables():
                         all(isinstance(e, ast.Constant) and isinstance(e.value, int) for e in v.elts)):
                     raise TranslatorError("_GATE_SIGNATURES: value is not a pair of ints")
                 sigs.append((_const_str(k, "signature key"), v.elts[0].value, v.elts[1].value))
+    # does Gate.__init__ reject a classical_control_value outside [0, 2**len(classical_controls))?
+    gc, _ = _src("operations/gateclass.py")
+    gate_cls = _find(gc.body, ast.ClassDef, "Gate")
+    ginit = _find(gate_cls.body, ast.FunctionDef, "__init__")
+    cv_check = False
+    for n in ast.walk(ginit):
+        if isinstance(n, ast.If) and any(isinstance(b, ast.Raise) for b in n.body):
+            t = ast.unparse(n.test)
+            if "classical_control_value" in t and "2 ** len(self.classical_controls)" in t:
+                if t.replace(" ", "").replace("(", "").replace(")", "") != (
+                        "self.classical_controlsisnotNoneandnot0<=self.classical_control_value"
+                        "<2**lenself.classical_controls"):
+                    raise TranslatorError("Gate.__init__: range test of classical_control_value not recognised: " + t)
+                cv_check = True
     return {"predefined": predefined, "qiskit": qiskit, "rows": rows, "user_gates": sorted(expect),
-            "sigs": sigs}
+            "sigs": sigs, "cv_check": cv_check}
 
 
 # ------------------------------------------------------------------------------------------
@@ -406,6 +420,9 @@ def render():
         A("def gateSignatures : Option (List (Str × Nat × Nat)) := some [")
         A(",\n".join(f"  ({lean_str(n)}, {a}, {b})" for n, a, b in i["sigs"]))
         A("]")
+    A("")
+    A("/-- `Gate.__init__` raises ValueError unless 0 <= classical_control_value < 2**len(classical_controls) -/")
+    A("def gateChecksControlValue : Bool := " + ("true" if i["cv_check"] else "false"))
     A("")
     A("/-- user gates installed by `_get_qiskit_gates` (bodies recognised by the translator) -/")
     A("def userGates : List Str := " + lean_list([lean_str(x) for x in i["user_gates"]]))
